@@ -66,6 +66,22 @@ def run(ctx):
                                     warn_error=(n % 4 == 1),
                                     # the ordinary way to cancel: pause_on_interrupt (the default) and "no" at the prompt
                                     pause=(n % 2 == 0))))
+    # resumed, then stopped: pause_on_interrupt is the package default, so a run that is finally stopped (or that ends normally)
+    # may have been interrupted and continued ("y") before; what was rolled back and repeated at the resume must not show in
+    # the output of the stopped run (frame indices, records, bookkeeping)
+    mb = dict(Ks=[1, 2, 3], SolveTs=([2, 3] if ctx.quick else [2, 3, 4]), SkipTs=[0, 2], DTS=[1], MaxFaults=2,
+              FaultKinds=["KIR", "KI", "Err"], OutModes=["path"], Foreigns=[[]], BadClasses=["none"])
+    ctx.model_check("TdglRun", rf.model_cfg(mb, rf.MECH, rf.INV_C15), name="TdglRun[C15, resumed then stopped]",
+                    required_actions=["Fault", "Close", "SaveBegin"], timeout=3000)
+    ms, _ = rf.export_behaviours(ctx, mb, rf.MECH, name="TdglRunGen[resumed then stopped]")
+    ms = [s for s in ms if any(f["kind"] == "KIR" for f in s["flog"])]
+    rnd.shuffle(ms)
+    ctx.cov["resumed_then_stopped_exported"] = len(ms)
+    for n, s in enumerate(ms[: (120 if ctx.quick else 2500)]):
+        jobs.append(("script", dict(cfg=dict(s["cfg"]), tdts=s["tdts"], simdts=s["simdts"], flog=s["flog"], probes=[0, 2, 3][n % 3],
+                                    screening=bool((n // 3) % 2), progress=10 ** 9)))
+    if not ms:
+        raise core.MachineryFailure("no behaviour with a resume was exported for the resumed-then-stopped family")
     # history: a faulted run followed, in the same process and at the same output path (its files removed with
     # os.remove), by a second run with its own fault: nothing of the first may leak into the second
     hist = [s for s in s1 if s["cfg"]["out"] == "path" and s["cfg"]["skipT"] == 0][: (12 if ctx.quick else 200)]
